@@ -296,6 +296,11 @@ class FileSplicer:
                     self.ed.insert(src.t(L.body_open).end, '\n' + t + '\n')
                 elif what == 'tail':
                     self.ed.insert(src.t(L.body_close).start, '\n' + t + '\n')
+                elif what == 'before':
+                    # ghost text in front of the loop statement (structural anchor: survives renamed loop variables / rewritten headers)
+                    self.ed.insert(src.t(L.kw_si).start, '\n' + t + '\n')
+                elif what == 'after':
+                    self.ed.insert(src.t(L.body_close).end, '\n' + t + '\n')
                 else:
                     raise SpliceError('bad loop directive %s' % what)
             if s.word in ('breakret', 'breakassign'):
@@ -462,6 +467,11 @@ class FileSplicer:
                     (p_open, p_close, b_start, b_end, is_block) = closures[ci]
                 selected_closures.add(p_open)
                 kv = dict(a.split('=', 1) for a in s.args[1:] if '=' in a)
+                if p_close == p_open + 2 and src.t(p_open + 1).kind == 'ident':
+                    # `$0` in the directive stands for the closure's own parameter name (a renamed parameter keeps its contract)
+                    own = src.t(p_open + 1).text
+                    kv = {k_: v_.replace('$0', own) for k_, v_ in kv.items()}
+                    s = vspec.Dir(s.word, s.args, s.text.replace('$0', own), s.line, s.subs, s.optional)
                 if 'params' in kv:
                     self.ed.replace(src.t(p_open).end, src.t(p_close).start, kv['params']); applied.append('N6')
                 t, ids = mark_obligations(s.text); clause_ids += ids
